@@ -27,6 +27,7 @@ def learners(seed):
     from sklearn.mixture import GaussianMixture
     from sklearn.naive_bayes import GaussianNB
     from skactiveml.classifier import MixtureModelClassifier, ParzenWindowClassifier, SklearnClassifier, SlidingWindowClassifier
+    from skactiveml.classifier.multiannotator import AnnotatorEnsembleClassifier, AnnotatorLogisticRegression
     from skactiveml.regressor import NadarayaWatsonRegressor, NICKernelRegressor, SklearnNormalRegressor, SklearnRegressor
     from sklearn.linear_model import BayesianRidge
     cl = [0, 1]
@@ -40,12 +41,29 @@ def learners(seed):
         ("NadarayaWatsonRegressor", lambda: NadarayaWatsonRegressor(random_state=seed), "reg", ("metric", "rbf")),
         ("SklearnRegressor[LinearRegression]", lambda: SklearnRegressor(LinearRegression(), random_state=seed), "reg", ("estimator__fit_intercept", False)),
         ("SklearnNormalRegressor[BayesianRidge]", lambda: SklearnNormalRegressor(BayesianRidge(), random_state=seed), "reg", ("estimator__alpha_1", 1e-5)),
+        # dictionary- / array- / list-valued parameters given explicitly, multi-annotator classifiers (two annotators)
+        ("ParzenWindowClassifier[gamma=0.5,prior vector,cost matrix]", lambda: ParzenWindowClassifier(classes=cl, metric_dict={"gamma": 0.5}, class_prior=[0.5, 1.5],
+                                                                                                 cost_matrix=np.array([[0.0, 1.0], [2.0, 0.0]]), random_state=seed), "clf", ("n_neighbors", 3)),
+        ("MixtureModelClassifier[similarities]", lambda: MixtureModelClassifier(mixture_model=GaussianMixture(n_components=2, random_state=seed), weight_mode="similarities",
+                                                                                 classes=cl, class_prior=[1.0, 2.0], random_state=seed), "clf", ("class_prior", 0.5)),
+        ("NICKernelRegressor[gamma=0.7]", lambda: NICKernelRegressor(metric_dict={"gamma": 0.7}, random_state=seed), "reg", ("kappa_0", 1.0)),
+        ("NadarayaWatsonRegressor[gamma=0.5]", lambda: NadarayaWatsonRegressor(metric_dict={"gamma": 0.5}, random_state=seed), "reg", ("metric", "rbf")),
+        ("AnnotatorLogisticRegression", lambda: AnnotatorLogisticRegression(classes=cl, n_annotators=2, max_iter=5, random_state=seed), "mclf", ("weights_prior", 2)),
+        ("AnnotatorLogisticRegression[solver_dict]", lambda: AnnotatorLogisticRegression(classes=cl, n_annotators=2, max_iter=5, solver_dict={"xtol": 1e-6}, random_state=seed), "mclf", ("tol", 1e-3)),
+        ("AnnotatorEnsembleClassifier", lambda: AnnotatorEnsembleClassifier(estimators=[("a", ParzenWindowClassifier(metric_dict={"gamma": 0.5}, random_state=seed)),
+                                                                                     ("b", ParzenWindowClassifier(random_state=seed + 1))], classes=cl, random_state=seed), "mclf", ("voting", "soft")),
     ]
 
 
 def data(rng, task, scale=1.0):
     n = int(rng.integers(5, 12))
     X = rng.normal(size=(n, 2)) * scale
+    if task == "mclf":               # two annotators
+        y = rng.integers(0, 2, size=(n, 2)).astype(float)
+        y[rng.random((n, 2)) < 0.3] = np.nan
+        if np.all(np.isnan(y)):
+            y[0, 0] = 0.0
+        return X, y
     y = rng.integers(0, 2, size=n).astype(float) if task == "clf" else np.round(rng.normal(size=n), 1)
     y[rng.random(n) < 0.3] = np.nan
     if np.all(np.isnan(y)):
@@ -54,7 +72,7 @@ def data(rng, task, scale=1.0):
 
 
 def predict(m, Xq, task):
-    if task == "clf":
+    if task in ("clf", "mclf"):
         return np.asarray(m.predict_proba(Xq), dtype=float)
     return np.asarray(m.predict(Xq), dtype=float)
 
@@ -148,11 +166,11 @@ def run(ctx):
     if meta:
         ctx.sample(meta[len(meta) // 2])
     # ---- histories ----
-    for h in range(48 if ctx.is_quick else 240):
+    for h in range(30 if ctx.is_quick else 240):
         seed = int(rng.integers(0, 1000))
         for name, mk, task, (pname, pval) in learners(seed):
             m = mk()
-            caller_dicts = {k: v for k, v in m.get_params(deep=True).items() if isinstance(v, dict)}
+            caller_dicts = {k: v for k, v in m.get_params(deep=True).items() if isinstance(v, (dict, list, np.ndarray))}
             dict_snap = {k: deep_snap(v) for k, v in caller_dicts.items()}
             hist = []
             Xq = rng.normal(size=(4, 2))
@@ -168,7 +186,7 @@ def run(ctx):
                         m.partial_fit(X, y)
                     elif op == "predict":
                         predict(m, Xq, task)
-                        if task == "clf":
+                        if task in ("clf", "mclf"):
                             m.predict(np.vstack([Xq, Xq]))      # hard predictions: ties are broken with the model's generator
                     elif op == "set_params":
                         m.set_params(**{pname: pval})
@@ -184,25 +202,25 @@ def run(ctx):
                                       what=f"{name}.{op} changed what get_params reports ({(d or dd)[:3]})")
                         raise StopIteration
                 Xf, yf = data(rng, task, scale=float(rng.choice([0.2, 8.0])))
-                cold = task == "clf" and h % 3 == 2
+                cold = task in ("clf", "mclf") and h % 3 == 2
                 if cold:
-                    yf = np.full(len(yf), np.nan)           # no labels at all: every hard prediction is a tie broken at random
+                    yf = np.full(np.shape(yf), np.nan)           # no labels at all: every hard prediction is a tie broken at random
                 m.fit(Xf, yf)
                 fresh = clone(m).fit(Xf, yf)
                 a, b = predict(m, Xq, task), predict(fresh, Xq, task)
-                if task == "clf":
+                if task in ("clf", "mclf"):
                     Xt = np.vstack([Xq] * 5)
                     ha, hb = np.asarray(m.predict(Xt)), np.asarray(fresh.predict(Xt))
                     if not np.array_equal(ha, hb):
                         ctx.violation(name, "history_leaks_into_fit", f"refit after {hist}: hard predictions {ha.tolist()}, a fresh clone {hb.tolist()}",
-                                      {"learner": name, "history": hist, "seed": seed, "X": Xf.tolist(), "y": [None if np.isnan(v) else v for v in yf], "cold": bool(cold)},
+                                      {"learner": name, "history": hist, "seed": seed, "X": Xf.tolist(), "y": np.where(np.isnan(yf), None, yf.astype(object)).tolist(), "cold": bool(cold)},
                                       what=f"{name}: a used object refitted on the same data predicts differently from a fresh clone (tie-breaking state survived the refit; history {hist})")
                 ctx.count("history:" + name)
                 if hist.count("fit") >= 1:
                     ctx.nontriv((name, tuple(hist), seed))
                 if not np.allclose(a, b, rtol=1e-9, atol=1e-12, equal_nan=True):
                     ctx.violation(name, "history_leaks_into_fit", f"refit after {hist} predicts {a.tolist()}, a fresh clone {b.tolist()}",
-                                  {"learner": name, "history": hist, "seed": seed, "X": Xf.tolist(), "y": [None if np.isnan(v) else v for v in yf]},
+                                  {"learner": name, "history": hist, "seed": seed, "X": Xf.tolist(), "y": np.where(np.isnan(yf), None, yf.astype(object)).tolist()},
                                   what=f"{name}: fitting a used object differs from fitting a fresh clone on the same data (history {hist})")
             except StopIteration:
                 continue
